@@ -319,6 +319,23 @@ class Run:
                 if str(e) == event:
                     return e(*args, **kwargs)
             return sm.send(event, *args, **kwargs)
+        if style == "send_item":
+            # the trigger object itself (a str subclass) handed to send()
+            for e in sm.events:
+                if str(e) == event:
+                    return sm.send(e, *args, **kwargs)
+            return sm.send(event, *args, **kwargs)
+        if style == "send_foreign_item":
+            # a trigger object that belongs to ANOTHER machine (same event name): send() delivers to
+            # the machine it is called on and treats the object as the name it carries
+            foreign = self._foreign_machine(event)
+            item = next(e for e in foreign.events if str(e) == event)
+            try:
+                return sm.send(item, *args, **kwargs)
+            finally:
+                if foreign.current_state.id != "za":
+                    self.rec.emit("note", what="foreign-trigger-fired", event=event)
+                    foreign.current_state = foreign.za
         if style == "mixin":
             tgt = self.objs["model"]
             if event in [str(e) for e in sm.events] and hasattr(tgt, event):
@@ -350,6 +367,19 @@ class Run:
                 return getattr(tgt, event)(*args, **kwargs)
             return sm.send(event, *args, **kwargs)
         raise ValueError(style)
+
+    def _foreign_machine(self, event):
+        """A callback-free two-state machine declaring the same event names (and `event`)."""
+        from statemachine import State, StateMachine
+
+        cache = self.__dict__.setdefault("_foreign", {})
+        names = tuple(sorted(set(str(e) for e in self.sm.events) | {event}))
+        if names not in cache:
+            body = {"za": State(initial=True), "zb": State()}
+            for nm in names:
+                body[nm] = body["za"].to(body["zb"]) | body["zb"].to(body["za"])
+            cache[names] = type("Foreign", (StateMachine,), body)()
+        return cache[names]
 
     def _send(self, step):
         rec = self.rec
